@@ -54,6 +54,8 @@ func (s *seqRT) interp() *Interp {
 	return &Interp{
 		W:          s.w,
 		WatchLoads: true,
+		// helper layers (a resumption object, adapters between thunk shapes) must not be cut off
+		MaxDepth: 16,
 		// frame condition for the opaque user-supplied Seq/thunk arguments: of the
 		// coroutine state they only ever replace the pending step (through Bind)
 		HavocKeep: func(key string) bool { return strings.HasPrefix(key, "c.") && key != "c.step" },
